@@ -103,6 +103,9 @@ var framerStart = time.Date(2023, 5, 10, 12, 0, 0, 0, time.UTC)
 // forceInCap / forcePrefill: the next stream uses this input channel capacity, filled before the framer starts
 var forceInCap = -1
 var forcePrefill = false
+var forceReuse = false
+var lastHandler *handler.Handler
+var streamNo = 0
 
 func runStream(w *tr.Writer, in []byte, cls string, inCap, outCap, pace int, grng *rand.Rand) {
 	prefill := false
@@ -117,11 +120,23 @@ func runStream(w *tr.Writer, in []byte, cls string, inCap, outCap, pace int, grn
 	if ra == nil {
 		ra = []string{}
 	}
+	// history: every third stream without a derived-field reference (and every stream after forceReuse) is fed to the
+	// handler that framed the PREVIOUS stream - a handler is a long-lived object (the proxy keeps one for its whole life);
+	// what the earlier stream was, and where it ended, must not matter to the segmentation of this one
+	streamNo++
+	var h *handler.Handler
+	if len(ra) == 0 && lastHandler != nil && (forceReuse || streamNo%3 == 2) {
+		h = lastHandler
+		cls += " +handler of the previous stream"
+	} else {
+		h = handler.New(framerStart, slog.LevelDebug)
+	}
+	forceReuse = false
+	lastHandler = nil
 	w.Emit(evReset{"reset", tr.Ints(in), cls, inCap, outCap, ra, pendingV[0], pendingV[1]})
 	pendingRef, pendingV = nil, [2]int{0, 0}
 	chIn := make(chan byte, inCap)
 	chOut := make(chan handler.Message, outCap)
-	h := handler.New(framerStart, slog.LevelDebug)
 	hdone := make(chan string, 1)
 	fed := 0
 	if prefill {
@@ -203,6 +218,9 @@ loop:
 	// wait for the handler goroutine (bounded) so that a second close shows up as a panic
 	select {
 	case p := <-hdone:
+		if p == "" && !end.Timeout {
+			lastHandler = h // its call has returned: the next stream may be given to it
+		}
 		if p != "" {
 			end.Panic = p
 			if len(p) > 0 && containsClose(p) {
@@ -537,6 +555,26 @@ func framer(args []string) {
 			{0xd3, 0, 0, 0, 0, 0, 0}, {1}, {1, 2}, {0xd3, 0xd3, 0xd3, 0xd3, 0xd3, 0xd3, 0xd3, 0xd3, 0xd3, 0xd3, 0xd3}} {
 			for k := 0; k < 3; k++ {
 				run(s, "special")
+			}
+		}
+		// history: the same handler frames one stream after another; the first ends at each kind of place (on a frame
+		// boundary, on a lone start byte, inside the leader, the payload, the CRC, after one byte of other data), the second
+		// holds several frames and other data
+		{
+			fa := gen.Frame(rng, 1077, 20, 0)
+			for _, endAt := range []int{len(fa), 1, 2, 3, 4, len(fa) / 2, len(fa) - 3, len(fa) - 2, len(fa) - 1} {
+				for _, lead := range [][]byte{{}, gen.Frame(rng, 1005, 19, 0), {0x41}} {
+					a := gen.Cat(lead, fa[:endAt])
+					if endAt == len(fa) && len(lead) == 1 {
+						a = gen.Cat(fa, lead) // ends with one byte of other data
+					}
+					b := gen.Cat(gen.Frame(rng, 1006, 21, 0), gen.Junk(rng, 3, 0), gen.Frame(rng, 1074, 12, 0), gen.Frame(rng, 1230, 8, 0), []byte{0xd3, 0x00})
+					run(a, fmt.Sprintf("first of two streams on one handler, ends at %d of %d", endAt, len(fa)))
+					forceReuse = true
+					run(b, "second of two streams on one handler")
+					forceReuse = true
+					run(b, "third of three streams on one handler")
+				}
 			}
 		}
 		// every prefix of a frame whose payload holds a complete valid smaller frame, other data and a start byte
